@@ -148,8 +148,13 @@ package annotations
 
 //@ func ValidateFlattenCollisions(message *protogen.Message) (err error)
 //@   pure
-//@   assume-contract
-//@   ensures (err == nil) <==> spec.CollisionFree(message)
+//@   reveal spec.CollisionFree
+//@   ensures iff: (err == nil) <==> spec.CollisionFree(message)
+//@   loop 1 invariant forall s string :: inDom(usedNames, s) <==> spec.parentNameBefore(message, _i1, s)
+//@   loop 2 invariant forall s string :: inDom(usedNames, s) <==> (spec.parentNameBefore(message, len(message.Fields), s) || spec.childNameBefore(message, _i2, 0, s))
+//@   loop 2 invariant spec.collisionFreeBefore(message, _i2, 0)
+//@   loop 3 invariant forall s string :: inDom(usedNames, s) <==> (spec.parentNameBefore(message, len(message.Fields), s) || spec.childNameBefore(message, _i2, _i3, s))
+//@   loop 3 invariant spec.collisionFreeBefore(message, _i2, _i3)
 
 //@ func GetOneofConfig(oneof *protogen.Oneof) (r *sebufhttp.OneofConfig)
 //@   pure
